@@ -642,6 +642,14 @@ Apply(op, St) ==
                                       !.ann = [x \in AllIds |-> IF x = op.r THEN d.ann ELSE IF x \in back THEN Wild ELSE @[x]],
                                       !.note = [x \in AllIds |-> IF x = op.r THEN d.note ELSE IF x \in back THEN Wild ELSE @[x]],
                                       !.attr = [x \in AllIds |-> IF x = op.r THEN d.attr ELSE IF x \in back THEN wa ELSE @[x]]]))
+  \* detached.id = new: the object is renamed while it belongs to no model (judged outside contexts only)
+  ELSE IF op.a = "DetachedRename" THEN
+       IF ~St.det[s][op.r].present \/ op.r \in St.m[s].rxns \/ op.new \in St.m[s].rxns \/ St.det[s][op.new].present
+          \/ Len(St.ctx[s]) > 0 \/ op.new = op.r
+       THEN Skip(St)
+       ELSE SRes([St EXCEPT !.det[s] = [x \in RxU |-> IF x = op.new THEN St.det[s][op.r]
+                                                      ELSE IF x = op.r THEN NoDet ELSE St.det[s][x]]],
+                 "none", TRUE, NoRet)
   ELSE IF op.a = "DetachedSetBounds" /\ St.det[s][op.r].present /\ op.r \notin St.m[s].rxns /\ op.lo <= op.hi THEN
        LET r == IF Len(St.ctx[s]) > 0 THEN Lift([St EXCEPT !.taint[s] = TRUE], s, Ok(St.m[s])) ELSE Lift(St, s, Ok(St.m[s])) IN
        SRes([r.st EXCEPT !.det[s][op.r].lb = op.lo, !.det[s][op.r].ub = op.hi], "none", TRUE, NoRet)
@@ -654,6 +662,17 @@ Apply(op, St) ==
                                                         THEN (IF r.st.det[s][x].st[op.new] # 0 THEN NoDet   \* (two objects, one id: not modelled)
                                                               ELSE [r.st.det[s][x] EXCEPT !.st = SwapKey(@, op.met, op.new, 0)])
                                                         ELSE r.st.det[s][x]]],
+                 r.raises, r.atomic, r.ret)
+  \* key form 3: the keys are the metabolite OBJECTS of the other slot's model; one whose id this model does not
+  \* have arrives as a copy of that object, with its attributes (and the other model keeps its own)
+  ELSE IF op.a \in {"RxnAddMetabolites", "RxnSubtractMetabolites"} /\ op.form = 3 /\ IsModel(St.m[3 - s]) THEN
+       LET r == Lift(St, s, ContentOp(op, St.m[s]))
+           other == St.m[3 - s]
+           nm == IF IsModel(r.st.m[s]) THEN (r.st.m[s].mets \ St.m[s].mets) \cap other.mets ELSE {} IN
+       IF r.raises # "none" \/ nm = {} THEN r
+       ELSE SRes([r.st EXCEPT !.m[s].attr = [x \in AllIds |-> IF x \in nm THEN other.attr[x] ELSE @[x]],
+                              !.m[s].ann = [x \in AllIds |-> IF x \in nm THEN other.ann[x] ELSE @[x]],
+                              !.m[s].note = [x \in AllIds |-> IF x \in nm THEN other.note[x] ELSE @[x]]],
                  r.raises, r.atomic, r.ret)
   ELSE IF op.a \in NotContextAware /\ Len(St.ctx[s]) > 0
        THEN Lift([St EXCEPT !.taint[s] = TRUE], s, ContentOp(op, St.m[s]))
